@@ -73,6 +73,31 @@ absolute `node.path` (which starts with the root element's own step) is evaluate
 root element.  XPath 3.1 §3.3 gives `/` no value there (XPDY0050). -/
 def evalAbsInFragment (e : Node) (absSteps : List Step) : List Ref := evalSteps e absSteps
 
+/-! ### several trees in one evaluation (context root, `fn:doc`, variables, `fn:parse-xml` …)
+
+The dynamic context of one evaluation can hold nodes of several trees.  XDM 3.1 §2.1 / F&O 3.1
+§14.6: `fn:path($n)` is the path of `$n` *relative to the root of the tree containing `$n`* — it
+does not depend on which tree the context item lives in.  A node of a forest is (tree index,
+reference inside that tree). -/
+
+abbrev Forest := List Node
+
+structure FNode where
+  tree : Nat
+  ref : Ref
+  deriving DecidableEq, Repr
+
+def FNode.valid (F : Forest) (n : FNode) : Prop :=
+  match F[n.tree]? with
+  | some top => Valid top n.ref
+  | none => False
+
+/-- value of a path (as steps) with the root of tree `t` as starting point -/
+def evalInTree (F : Forest) (t : Nat) (steps : List Step) : List FNode :=
+  match F[t]? with
+  | some top => (evalSteps top steps).map fun r => ⟨t, r⟩
+  | none => []
+
 /-! ### the path prescribed by F&O 3.1 §14.6 -/
 
 /-- shape of the step for a child (position filled in by `specStep`) -/
